@@ -7,6 +7,7 @@ import (
 	"path/filepath"
 	"sort"
 	"strings"
+	"sync"
 
 	"deps.dev/util/resolve"
 	"deps.dev/util/resolve/dep"
@@ -462,6 +463,12 @@ func effOf(en entry, v *mview) (mreq, string, error) {
 
 const addedName = "org.new:added"
 
+var (
+	mvnOnce sync.Once
+	mvnRW   verifhooks.ManifestReadWriter
+	mvnErr  error
+)
+
 func runMaven(c *wcase, dir string, o *wobs, dump bool) {
 	inRoot, outRoot := filepath.Join(dir, "in"), filepath.Join(dir, "out")
 	child, cflags := c.renderPom("child")
@@ -496,7 +503,10 @@ func runMaven(c *wcase, dir string, o *wobs, dump bool) {
 			return
 		}
 	}
-	rw, err := verifhooks.MavenReadWriter("http://127.0.0.1:1/")
+	// one reader/writer for all cases: the documents name no repositories and have only local parents, so
+	// the registry client (unreachable address on purpose) is never used or modified
+	mvnOnce.Do(func() { mvnRW, mvnErr = verifhooks.MavenReadWriter("http://127.0.0.1:1/") })
+	rw, err := mvnRW, mvnErr
 	if err != nil {
 		o.Why = err.Error()
 		return
